@@ -200,7 +200,19 @@ func ruleTransportUnbounded(c *Ctx) {
 					continue
 				}
 				named, ok := pt.Elem().(*types.Named)
-				if !ok || named.Obj().Pkg() == nil || named.Obj().Pkg().Path() != "net/http" {
+				if !ok || named.Obj().Pkg() == nil {
+					continue
+				}
+				if strings.HasSuffix(named.Obj().Pkg().Path(), "golang.org/x/net/http2") && named.Obj().Name() == "Transport" {
+					n++
+					if faField(fa).Name() == "StrictMaxConcurrentStreams" {
+						if cst, ok := st.Val.(*ssa.Const); !ok || cst.Value == nil || constant.BoolVal(cst.Value) {
+							bad = append(bad, fmt.Sprintf("%s: %s makes the h2c transport wait for a free stream (StrictMaxConcurrentStreams): requests beyond the upstream's advertised limit queue behind one another instead of being forwarded at once", c.P.pos(st.Pos()), funcName(f)))
+						}
+					}
+					continue
+				}
+				if named.Obj().Pkg().Path() != "net/http" {
 					continue
 				}
 				fld := faField(fa).Name()
@@ -227,6 +239,8 @@ func ruleTransportUnbounded(c *Ctx) {
 						bad = append(bad, fmt.Sprintf("%s: %s limits the connections per upstream host (MaxConnsPerHost): requests beyond the cap wait inside net/http for another request to finish, so passed / hit-for-pass requests queue behind one another", c.P.pos(st.Pos()), funcName(f)))
 					case "MaxResponseHeaderBytes":
 						bad = append(bad, fmt.Sprintf("%s: %s caps the size of upstream response headers (MaxResponseHeaderBytes): a response with larger headers is replaced by pike's own error instead of being delivered", c.P.pos(st.Pos()), funcName(f)))
+					case "Proxy":
+						bad = append(bad, fmt.Sprintf("%s: %s gives the upstream transport a Proxy function: with HTTP_PROXY set in pike's environment requests go to that forward proxy, not to the server the health-checked pool picked", c.P.pos(st.Pos()), funcName(f)))
 					case "ResponseHeaderTimeout":
 						bad = append(bad, fmt.Sprintf("%s: %s sets ResponseHeaderTimeout on the upstream transport: an upstream slower than that fails although the location's proxy timeout allows it", c.P.pos(st.Pos()), funcName(f)))
 					}
